@@ -7,7 +7,6 @@
 package c01
 
 import (
-	"sync"
 	"context"
 	"fmt"
 	"os"
@@ -16,6 +15,7 @@ import (
 	"sort"
 	"strconv"
 	"strings"
+	"sync"
 	"testing"
 	"time"
 
@@ -44,13 +44,15 @@ var (
 	lvOver   = log.RegisterLevel(1000, "OVER")
 	lvSec    = log.RegisterLevel(1100, "SEC")
 	lvAudit  = log.RegisterLevel(1200, "AUDIT")
+	// an alias: another name for WARN's code (bounds and routing go by the code)
+	lvWarning = log.RegisterLevel(400, "WARNING")
 )
 
 var allLevels = []lvl{
 	{"NONE", 0, log.NoneLevel}, {"TRACE", 100, log.TraceLevel}, {"DEBUG", 200, log.DebugLevel}, {"INFO", 300, log.InfoLevel},
 	{"WARN", 400, log.WarnLevel}, {"ERROR", 500, log.ErrorLevel}, {"PANIC", 600, log.PanicLevel}, {"FATAL", 700, log.FatalLevel},
 	{"MAX", 999, log.MaxLevel}, {"LOWEST", 1, lvLowest}, {"NOTICE", 350, lvNotice}, {"ALERT", 450, lvAlert}, {"TOP", 998, lvTop},
-	{"NEG", -1, lvNeg}, {"OVER", 1000, lvOver}, {"SEC", 1100, lvSec}, {"AUDIT", 1200, lvAudit},
+	{"NEG", -1, lvNeg}, {"OVER", 1000, lvOver}, {"SEC", 1100, lvSec}, {"AUDIT", 1200, lvAudit}, {"WARNING", 400, lvWarning},
 }
 
 var builtin = allLevels[:9]
@@ -161,6 +163,7 @@ func effective(refs []rng) [][2]int {
 // ---------------------------------------------------------------- generator
 
 var levelPool = rapid.SampledFrom([]string{"NONE", "TRACE", "DEBUG", "INFO", "WARN", "ERROR", "PANIC", "FATAL", "MAX", "LOWEST", "NOTICE", "ALERT", "TOP", "INFO", "WARN", "DEBUG", "ERROR"})
+
 // Carve-out: for the rolling-file logger no range bound above MAX is generated. MAX is documented
 // as "the upper bound for comparisons"; what a range reaching beyond it means for that logger's
 // internal [min,WARN)/[WARN,max) split is not pinned down by the property. Everywhere else an
@@ -220,8 +223,8 @@ type cfg struct {
 	// test tag is served by it because nobody lists it) - a root logger is a logger like any other
 	AsRoot bool
 	Others int // competing loggers
-	Root     bool
-	Dir      string
+	Root   bool
+	Dir    string
 }
 
 // target: the appender reference i names (hand-written cases leave Target nil: r<i>).
@@ -1051,13 +1054,13 @@ func TestRegress_C01(t *testing.T) {
 	}
 	events = append(events, ev{ID: id, Entry: "Record", Level: levelByName("NONE"), Tag: "a"}, ev{ID: id + 1, Entry: "Record", Level: levelByName("TOP"), Tag: "a"})
 	cases := []cfg{
-		{Kind: "sync", Logger: rng{Empty: true}, Refs: []rng{{Min: "NONE"}, {Min: "NONE"}}, Order: []int{0, 1}},                               // equal lower bounds
+		{Kind: "sync", Logger: rng{Empty: true}, Refs: []rng{{Min: "NONE"}, {Min: "NONE"}}, Order: []int{0, 1}}, // equal lower bounds
 		{Kind: "sync", Logger: rng{Empty: true}, Refs: []rng{{Empty: true}, {Empty: true}, {Min: "INFO", HasMax: true, Max: "ERROR"}}, Order: []int{2, 0, 1}},
-		{Kind: "console", Logger: rng{Empty: true}},                                                                                              // Refresh panicked
+		{Kind: "console", Logger: rng{Empty: true}}, // Refresh panicked
 		{Kind: "file", Logger: rng{Min: "INFO"}},
-		{Kind: "rolling", Logger: rng{Empty: true}},                                                                                              // nil layout
+		{Kind: "rolling", Logger: rng{Empty: true}}, // nil layout
 		{Kind: "rolling", Logger: rng{Min: "DEBUG"}, Separate: true, Layout: "JSONLayout"},
-		{Kind: "rolling", Logger: rng{Empty: true}, Async: true},                                                                                 // inner async logger never started
+		{Kind: "rolling", Logger: rng{Empty: true}, Async: true}, // inner async logger never started
 		{Kind: "rolling", Logger: rng{Empty: true}, Async: true, Separate: true},
 	}
 	for i, c := range cases {
